@@ -18,9 +18,14 @@ Theorem C19_known_roots_identity : forall W o g roots imports,
   build W o g roots imports =
     Some {| bg_kind := bg_kind g; bg_roots := bg_roots g; bg_slots := bg_slots g;
             bg_redirects := bg_redirects g; bg_imports := bg_imports g; bg_has_node := bg_has_node g;
-            bg_loads := [] |}.
+            bg_calls := []; bg_lock_sets := [] |}.
 Proof. exact build_known_roots_identity. Qed.
 Print Assumptions C19_known_roots_identity.
+
+Theorem C19_reload_no_pending : forall W o g specs g',
+  no_pending (bg_slots g) -> reload W o g specs = Some g' -> no_pending (bg_slots g').
+Proof. exact reload_no_pending. Qed.
+Print Assumptions C19_reload_no_pending.
 
 Theorem C19_incremental_no_pending : forall W o g roots imports g',
   no_pending (bg_slots g) -> build W o g roots imports = Some g' -> no_pending (bg_slots g').
@@ -30,12 +35,12 @@ Print Assumptions C19_incremental_no_pending.
 (* F-C19a: a.ts imports ./data.json without attribute.  [a.ts] then [data.json]
    leaves the "unsupported media type" error; both roots at once load the JSON module. *)
 Definition c19_world : world :=
-  {| w_resp := [(1, WModule 1 {| wm_media := MTypeScript; wm_parse_ok := true; wm_kind := MkJs;
+  {| w_resp := [(1, WModule 1 {| wm_hash_raw := 0; wm_hash_text := 0; wm_media := MTypeScript; wm_parse_ok := true; wm_kind := MkJs;
                                  wm_deps := [({| d_text := 10; d_filelike := false; d_code := ROk 2 5; d_type := RNone;
                                                 d_dyn := false; d_deno_types := false; d_attr := 0 |}, false)];
                                  wm_tdep := None |});
-                (2, WModule 2 {| wm_media := MJson; wm_parse_ok := true; wm_kind := MkJs; wm_deps := []; wm_tdep := None |})];
-     w_class := []; w_file := []; w_max_redirects := 10 |}.
+                (2, WModule 2 {| wm_hash_raw := 0; wm_hash_text := 0; wm_media := MJson; wm_parse_ok := true; wm_kind := MkJs; wm_deps := []; wm_tdep := None |})];
+     w_resp_reload := []; w_http := []; w_lock := None; w_class := []; w_file := []; w_max_redirects := 10 |}.
 Definition c19_opts : bopts :=
   {| bo_kind := KAll; bo_is_dynamic := false; bo_skip_dynamic := false; bo_unstable_bytes := false;
      bo_unstable_text := false; bo_unstable_css := false |}.
